@@ -24,9 +24,14 @@ for m in sorted(glob.glob(os.path.join(ROOT, "seeded", "*", "meta.json"))):
     d = load(m)
     srows.append("| %s | %s | %s | %s | %s |" % (os.path.basename(os.path.dirname(m)), d.get("property"), " ".join(d.get("files", [])), (d.get("needs_to_manifest") or "").replace("\n", " ").replace("|", "/")[:220], d.get("detected_by") or "not yet run"))
 seeds = "\n".join(srows)
+lrows = []
+for pf in sorted(glob.glob(os.path.join(ROOT, "props", "C??.json"))):
+    c = load(pf)
+    lrows.append("* **%s** - %s\n  *Trusted/assumed:* %s %s" % (c["id"], c.get("level_text", ""), c.get("level_note", ""), (" Assumptions: " + "; ".join(c.get("assumptions", []))) if c.get("assumptions") else ""))
+levels = "\n".join(lrows)
 p = os.path.join(ROOT, "DESIGN.md")
 s = open(p).read()
-for name, body in (("status", status), ("findings", findings), ("seeds", seeds)):
+for name, body in (("status", status), ("findings", findings), ("seeds", seeds), ("levels", levels)):
     s = re.sub(r"(<!-- GEN:%s -->).*?(<!-- /GEN:%s -->)" % (name, name), lambda m: m.group(1) + "\n" + body + "\n" + m.group(2), s, flags=re.S)
 open(p, "w").write(s)
 print("DESIGN.md tables regenerated")
